@@ -2241,9 +2241,11 @@ static int _ov_initprime(OggVorbis_File *vf){
     if(vf->ready_state==INITSET)
       if(vorbis_synthesis_pcmout(vd,NULL))break;
 
-    /* suck in another packet */
+    /* suck in another packet; the position we are priming may be the
+       very end of a link, in which case the audio that follows is the
+       next link's (callers look the stream information up afterward) */
     {
-      int ret=_fetch_and_process_packet(vf,NULL,1,0);
+      int ret=_fetch_and_process_packet(vf,NULL,1,1);
       if(ret<0 && ret!=OV_HOLE)return(ret);
     }
   }
